@@ -59,7 +59,7 @@ ASSUMPTIONS = [
     "for prefixes that are only classified (stage 1) and not started for real, SPSDK's behaviour is assumed to depend only on what pickle.load returns/raises for those bytes; every class and every boundary between classes is started for real",
     "a process killed while writing leaves a byte prefix of the file it was writing (open('wb') + sequential writes); power loss / reordered blocks are not modelled",
     "Linux flock semantics (a killed process releases its FileLock); other operating systems are not covered",
-    "the fixed query script (families per feature and sub-feature, device list, purposes, predecessor names, memory types, per-revision feature data of selected devices (all devices in the thorough tier), three schema files, `nxpimage --help` and `nxpimage mbi get-families`) stands for 'every database query'",
+    "the fixed query script (families per feature and sub-feature, device list, purposes, predecessor names, memory types, per-revision feature data of selected devices (6 in the quick tier, every 4th device with all its revisions in the thorough tier), three schema files, `nxpimage --help` and `nxpimage mbi get-families`) stands for 'every database query'",
     "schedules are explored at the sync points of the harness-side shim (names os/pickle/FileLock/open rebound in the namespace of spsdk.utils.database inside the child); preemption inside a C call is represented by the corresponding prefix state",
 ]
 # shares of *evaluations* (about 1.3e5 of them are stage-1 prefixes), hence the small numbers
@@ -142,7 +142,7 @@ def build_queries(db, tier: str, extra: tuple = ()) -> dict:
         pick = [names[0], names[len(names) // 2], names[-1]] + alias[:1] + [db.devices[a].alias for a in alias[:1]] + multi[:1]
         pick = list(dict.fromkeys(pick + [e for e in extra if e in db.devices]))
     else:
-        pick = list(names)
+        pick = list(dict.fromkeys(names[::4] + [n for n in names if db.devices[n].alias][:3] + [e for e in extra if e in db.devices]))
     values = []
     for n in pick:
         values.append([n, "latest"])
@@ -682,7 +682,7 @@ def stale_device(db) -> str:
     """The device whose file the same-size / same-mtime edits change: a plain device with two revision names of equal length."""
     for n in db.device_names():
         d = db.devices[n]
-        if not d.alias and any(r != d.latest and len(r) == len(d.latest) for r in d.revisions):
+        if not d.alias and (d.raw.get("info") or {}).get("purpose") and any(r != d.latest and len(r) == len(d.latest) for r in d.revisions):
             return n
     raise HarnessError("no device with two revision names of equal length")
 
@@ -719,8 +719,13 @@ def apply_stale_edit(state: str, data: str, db) -> None:
         n = stale_device(db)
         d = db.devices[n]
         other = [r for r in d.revisions if r != d.latest and len(r) == len(d.latest)][0]
-        if state == "stale_device_same_size":  # another latest revision: same size, newer mtime
-            _retext(dev_yaml(n), lambda t: t.replace("\nlatest: %s\n" % d.latest, "\nlatest: %s\n" % other, 1), keep_mtime=False)
+        if state == "stale_device_same_size":  # another latest revision, one letter of the purpose changed: same size, newer mtime
+            def edit(t):
+                t = t.replace("\nlatest: %s\n" % d.latest, "\nlatest: %s\n" % other, 1)
+                i = t.index("\n  purpose: ")
+                j = t.index("\n", i + 1)
+                return t[: j - 1] + ("Z" if t[j - 1] != "Z" else "Y") + t[j:]
+            _retext(dev_yaml(n), edit, keep_mtime=False)
         else:  # as before plus a comment line: other size, the old mtime (e.g. restored by an archive tool)
             _retext(dev_yaml(n), lambda t: t.replace("\nlatest: %s\n" % d.latest, "\nlatest: %s\n# c18\n" % other, 1), keep_mtime=True)
     elif state in ("stale_schema_same_size", "stale_schema_same_mtime"):
@@ -804,7 +809,7 @@ def _conc_items(tier: str) -> list:
     if tier == "quick":
         ns, states, rounds = [2, 3, 4, 6, 8], ["cold", "both_empty", "quick_frame_boundary", "data_truncated"], 1
     else:
-        ns, states, rounds = list(range(2, 17)), list(_conc_specs()), 12
+        ns, states, rounds = list(range(2, 17)), list(_conc_specs()), 8
     return [{"n": n, "state": s, "round": r} for r in range(rounds) for s in states for n in ns]
 
 
